@@ -79,7 +79,8 @@ fn scenario(seed: u64) -> (String, Vec<Vec<Call>>) {
     let mut s = seed ^ 0xC16;
     let pieces = ["", "a", "bb", "é"];
     let terms = ["\n", "\r\n", "\r"];
-    let nterm = below(&mut s, 4) as usize;
+    // one scenario in eight has a long text (65..90 lines): beyond any plausible indexing batch
+    let nterm = if seed % 8 == 5 { 64 + below(&mut s, 26) as usize } else { below(&mut s, 4) as usize };
     let mut text = String::new();
     for i in 0..=nterm {
         text.push_str(pieces[below(&mut s, 4) as usize]);
